@@ -360,8 +360,8 @@ Proof.
       * destruct (is_vec_bcast (oshape a) (oshape b)); discriminate.
     + destruct r as [v| | | |x]; try discriminate. reflexivity.
   - destruct r as [v| | | |x]; try discriminate; [|reflexivity].
-    destruct (ibop _ _ _ a b); [|discriminate].
-    destruct (kf_samevec _ a b && val_eqb _ _ _ v); discriminate.
+    destruct (ibop _ _ _ _ a b); [|discriminate].
+    destruct (kf_samevec _ _ a b && val_eqb _ _ _ v); discriminate.
 Qed.
 
 (* ------------------------------------------------------------------ *)
@@ -497,9 +497,30 @@ Proof.
     rewrite <- Hr, <- Hk, Hx, Hy. reflexivity.
 Qed.
 
-Theorem ibop_eq_bop {A X} (dflt : X) (vk : vkern) (f : A -> A -> option X) (a b : operand A) :
+Lemma index_kernel_long {A X} (f : A -> A -> option X) (sc : A -> option X) : forall la lb,
+  List.length la <= List.length lb -> index_kernel f sc la lb = map2_opt f la lb.
+Proof.
+  induction la as [|x la IH]; intros lb Hlen; [reflexivity|].
+  destruct lb as [|y lb]; [cbn in Hlen; lia|]. cbn [index_kernel tl]. unfold map2_opt. cbn [combine map_opt fst snd].
+  rewrite IH by (cbn in Hlen; lia). reflexivity.
+Qed.
+
+Lemma index_kernel_runs_out {A X} (f : A -> A -> option X) (sc : A -> option X) : forall la lb,
+  runs_out sc la lb = true -> index_kernel f sc la lb = None.
+Proof.
+  unfold runs_out. induction la as [|x la IH]; intros lb H.
+  - destruct (List.length lb); discriminate.
+  - destruct lb as [|y lb].
+    + cbn [List.length skipn existsb] in H. cbn [index_kernel tl].
+      destruct (sc x) eqn:Hsc; [|reflexivity]. cbn [orb] in H.
+      rewrite (IH [] H). reflexivity.
+    + cbn [List.length skipn] in H. cbn [index_kernel tl]. rewrite (IH lb H).
+      destruct (f x y); reflexivity.
+Qed.
+
+Theorem ibop_eq_bop {A X} (dflt : X) (vk : vkern) (sc : A -> option X) (f : A -> A -> option X) (a b : operand A) :
   owf a = true -> owf b = true -> pos_shape (oshape a) -> pos_shape (oshape b) ->
-  kf_samevec vk a b = false -> ibop dflt vk f a b = bop f a b.
+  kf_samevec vk sc a b = false -> ibop dflt vk sc f a b = bop f a b.
 Proof.
   intros Ha Hb Hpa Hpb Hkf. pose proof (dispatch_spec _ _ Hpa Hpb) as Hd.
   unfold ibop, kf_samevec in *. destruct (dispatch (oshape a) (oshape b)) as [[]|] eqn:Hdis.
@@ -528,14 +549,14 @@ Proof.
       * unfold map2_opt. destruct (map_opt _ (combine (mdata ma) (mdata mb))) as [d|] eqn:Hm; [|reflexivity].
         cbn [option_map]. apply map_opt_length in Hm. rewrite combine_length, <- Hlen, Nat.min_id in Hm.
         rewrite Hm, Nat.sub_diag. cbn [repeat]. rewrite app_nil_r. reflexivity.
-      * rewrite <- Hlen, Nat.ltb_irrefl. reflexivity.
+      * rewrite index_kernel_long by lia. reflexivity.
     + unfold bop. cbn [oshape]. rewrite Hnone.
       assert (Hne : Nat.eqb (mrows ma) (mrows mb) && Nat.eqb (mcols ma) (mcols mb) = false).
       { destruct (Nat.eqb_spec (mrows ma) (mrows mb)) as [e1|]; [|reflexivity].
         destruct (Nat.eqb_spec (mcols ma) (mcols mb)) as [e2|]; [|reflexivity].
         exfalso. rewrite e1, e2 in Hnone. cbn in Hnone. rewrite !Nat.eqb_refl in Hnone. discriminate. }
       rewrite Hne in *. cbn [negb andb] in Hkf. destruct vk; [reflexivity|discriminate|].
-      apply negb_false_iff in Hkf. rewrite Hkf. reflexivity.
+      apply negb_false_iff in Hkf. rewrite (index_kernel_runs_out f sc _ _ Hkf). reflexivity.
   - (* AMV *) destruct Hd as [R [C [HR [HC [Hsa Hsb]]]]].
     destruct a as [x|ma]; [discriminate|]. destruct b as [y|mb]; [discriminate|].
     cbn [oshape] in Hsa, Hsb. inversion Hsa as [[Hra Hca]]. inversion Hsb as [[Hrb Hcb]].
@@ -795,17 +816,17 @@ Local Close Scope Z_scope.
 (* ------------------------------------------------------------------ *)
 
 (* outside the class the implementation model rejects incompatible shapes *)
-Corollary ibop_reject_incompatible {A X} (dflt : X) (vk : vkern) (f : A -> A -> option X) (a b : operand A) :
+Corollary ibop_reject_incompatible {A X} (dflt : X) (vk : vkern) (sc : A -> option X) (f : A -> A -> option X) (a b : operand A) :
   owf a = true -> owf b = true -> pos_shape (oshape a) -> pos_shape (oshape b) ->
-  kf_samevec vk a b = false -> bshape (oshape a) (oshape b) = None -> ibop dflt vk f a b = None.
+  kf_samevec vk sc a b = false -> bshape (oshape a) (oshape b) = None -> ibop dflt vk sc f a b = None.
 Proof.
   intros Ha Hb Hpa Hpb Hkf Hs. rewrite ibop_eq_bop by assumption. apply bop_reject_incompatible. exact Hs.
 Qed.
 
 (* inside the class the shapes are incompatible (so the property demands an error) *)
-Lemma kf_samevec_incompatible {A} (vk : vkern) (a b : operand A) :
+Lemma kf_samevec_incompatible {A X} (vk : vkern) (sc : A -> option X) (a b : operand A) :
   pos_shape (oshape a) -> pos_shape (oshape b) ->
-  kf_samevec vk a b = true -> bshape (oshape a) (oshape b) = None.
+  kf_samevec vk sc a b = true -> bshape (oshape a) (oshape b) = None.
 Proof.
   intros Hpa Hpb H. pose proof (dispatch_spec _ _ Hpa Hpb) as Hd. unfold kf_samevec in H.
   destruct (dispatch (oshape a) (oshape b)) as [[]|]; try discriminate.
@@ -819,8 +840,8 @@ Qed.
 Theorem refuted_samevec :
   exists (a b : operand Z) (v : operand Z),
     owf a = true /\ owf b = true /\ pos_shape (oshape a) /\ pos_shape (oshape b) /\
-    bshape (oshape a) (oshape b) = None /\ kf_samevec VZip a b = true /\
-    ibop 0%Z VZip (fun x y => Some (x * y)%Z) a b = Some v.
+    bshape (oshape a) (oshape b) = None /\ kf_samevec VZip (fun _ : Z => @None Z) a b = true /\
+    ibop 0%Z VZip (fun _ => None) (fun x y => Some (x * y)%Z) a b = Some v.
 Proof.
   exists (OM (Mat 1 4 [1; 2; 3; 4]%Z)), (OM (Mat 1 3 [1; 2; 3]%Z)), (OM (Mat 1 4 [1; 4; 9; 0]%Z)).
   cbn [oshape pos_shape mrows mcols]. repeat split; try reflexivity; lia.
